@@ -15,6 +15,34 @@ type pickAdapter struct{ ch *explore.Chooser }
 
 func (p pickAdapter) Pick(n int, label string) int { return p.ch.Dev(n, label) }
 
+// policyPick applies one encoding policy to a whole message: for a label with a listed prefix it picks the
+// given option (the last one for -1), canonical otherwise.
+type policyPick struct {
+	name string
+	m    map[string]int
+}
+
+func (p policyPick) Pick(n int, label string) int {
+	for k, v := range p.m {
+		if strings.HasPrefix(label, k) {
+			if v < 0 || v >= n {
+				return n - 1
+			}
+			return v
+		}
+	}
+	return 0
+}
+
+var largePolicies = []policyPick{
+	{"canonical", nil},
+	{"variable-length lists", map[string]int{"list-form": -1}},
+	{"untyped variable-length lists, typed maps", map[string]int{"list-form": -1, "list-untype": 1, "map-addtype": 1}},
+	{"class definitions hoisted, long object form", map[string]int{"hoist-classdef": 1, "object-form": 1}},
+	{"widest number forms, full dates", map[string]int{"int-form": -1, "long-form": -1, "double-form": -1, "date-form": 1}},
+	{"strings and binaries in three chunks, widest final form", map[string]int{"str-split": -1, "bin-split": -1, "str-final": -1, "bin-final": -1}},
+}
+
 func bytesContainCompactDate(v *rh.Value) bool {
 	seen := map[*rh.Value]bool{}
 	var f func(x *rh.Value) bool
@@ -180,6 +208,9 @@ func init() {
 						if zc.Devs == 0 {
 							bound = tierPick(tier, 2, 3)
 						}
+						if t.Name == "Many" && tier == "thorough" {
+							bound-- // 26 classes: the choice vector is several times longer than any other type's
+						}
 						if countNodes(want, map[*rh.Value]bool{}) <= 3 && !hasObject(want, map[*rh.Value]bool{}) {
 							bound = 8 // small values: every combination of choices
 						}
@@ -234,10 +265,40 @@ func init() {
 					c.Cover("type:" + t.Name)
 				}})
 			}
+			// large messages (sizes around the structural thresholds) under one whole-message encoding policy each
+			for pi, pol := range largePolicies {
+				pi, pol := pi, pol
+				us = append(us, core.Unit{Name: "large:" + pol.name, Cost: 100, Run: func(c *core.Ctx) {
+					for _, lc := range largeCases(tier) {
+						if !c.Begin() {
+							continue
+						}
+						c.NontrivialN(1)
+						c.Res.States++
+						c.Res.Transitions++
+						val := lc.mk()
+						tm, nm, p := Maps(val)
+						if p != "" {
+							continue
+						}
+						w := zoo.NewDenoter(nm).Denote(val)
+						e := rh.NewEncoder(largePolicies[pi])
+						e.NoCompactDate = true
+						e.Top(w)
+						desc := lc.desc + " | encoding policy: " + pol.name
+						if _, err := rh.ParseOne(e.Out); err != nil {
+							c.Report(&core.Violation{Stage: "selfcheck", Kind: "harness", Shape: "R1", Message: "R1 cannot parse its own rendering: " + err.Error(), Case: desc})
+							continue
+						}
+						c.Outcome(decodeAgainst(c, e.Out, val, tm, nm, desc, "large "+pol.name, nil))
+					}
+					c.Cover("large")
+				}})
+			}
 			return us
 		},
 		RequireCover: func(string) []string {
-			l := []string{"choice:int-form", "choice:long-form", "choice:double-form", "choice:date-form", "choice:str-split", "choice:str-final", "choice:bin-split", "choice:bin-final",
+			l := []string{"large", "choice:int-form", "choice:long-form", "choice:double-form", "choice:date-form", "choice:str-split", "choice:str-final", "choice:bin-split", "choice:bin-final",
 				"choice:list-form", "choice:list-untype", "choice:map-addtype", "choice:type-backref", "choice:object-form", "choice:hoist-classdef"}
 			for _, t := range zoo.Types {
 				l = append(l, "type:"+t.Name)
